@@ -11,7 +11,8 @@ package main
 //                  "= id {json}"   its result
 //                the file -marker (shared memory) holds "id text": progress inside the running
 //                case (graphs: "root op" about to run); it survives the death of the child
-//                  "! id text"     watchdog: the case exceeded its CPU/wall limit (exit 86)
+//                  "! id text"     watchdog: the case exceeded its CPU/wall limit (exit 86) or is
+//                                  running beyond its step budget (exit 87)
 //                  "# id text"     machinery problem (exit 3)
 
 import (
@@ -165,6 +166,14 @@ func c02Child(args []string) error {
 				curStartCPU.Store(cpuMillis())
 				curStartWall.Store(time.Now().UnixMilli())
 				continue
+			}
+			if th := c02CurThread.Load(); th != nil {
+				if steps, budget := th.ExecutionSteps(), c02CurBudget.Load(); steps > budget+1000 {
+					mu.Lock()
+					fmt.Fprintf(w, "! %d overrun: %d steps executed and still running with a budget of %d\n", id, steps, budget)
+					w.Flush()
+					os.Exit(87)
+				}
 			}
 			cpu := cpuMillis() - curStartCPU.Load()
 			wall := time.Now().UnixMilli() - curStartWall.Load()
@@ -426,6 +435,8 @@ func (s *c02Sup) runBatch(lines [][]byte) error {
 		a := &c02Abnormal{ID: inflight, Exit: exit, At: at, Case: json.RawMessage(bytes.TrimSpace(byID[inflight]))}
 		if hang != "" && exit == 86 {
 			a.What, a.Detail = "hang", hang
+		} else if hang != "" && exit == 87 {
+			a.What, a.Detail = "overrun", hang
 		} else {
 			a.What = "crash"
 			c02Diagnose(a, stderr)
